@@ -250,6 +250,27 @@ pub fn run(args: &Args) -> i32 {
         check_name(&s, loc);
         loc.note(hash64(s.as_bytes()), s.len() == 4 && s.is_ascii(), "parsed");
     });
+    // strings assembled from the tokens documented names are made of (repeated prefixes, doubled board numbers, a
+    // whole name followed by another): every sequence of 0..=4 tokens
+    let tokens = ["B", "C", "PC", "AT", "ATAT", "TRBA", "MCVX", "CBF", "CBF1", "SEQ2", "09", "00", "77", "18", "0", "A", "F", "V", "1", " "];
+    let nt = tokens.len() as u64;
+    rep.run("names-token-strings", 1 + nt + nt * nt + nt * nt * nt + nt * nt * nt * nt, 60, true, &format!("every concatenation of 0..=4 tokens out of {tokens:?}"), |idx, loc| {
+        let mut x = idx;
+        let mut l = 0usize;
+        let mut block = 1u64;
+        while x >= block {
+            x -= block;
+            block *= nt;
+            l += 1;
+        }
+        let mut s = String::new();
+        for _ in 0..l {
+            s.push_str(tokens[(x % nt) as usize]);
+            x /= nt;
+        }
+        check_name(&s, loc);
+        loc.note(hash64(&(s.as_bytes(), "tok")), s.len() == 4, "parsed");
+    });
     let prefixes = ["", "B", "C", "PC", "CB", "CBF", "SEQ", "SE", "ATA", "AT", "TRB", "MCV", "B09", "C18", "PC0", "CBF0", "SEQ2", "ATAT", "CBF1"];
     let suf: Vec<char> = "0123459+- AFVWZa.\t".chars().collect();
     let ns = suf.len() as u64;
